@@ -235,8 +235,15 @@ def t_versions(ctx):
             case = {'kind': 'versioned', 'version': v, 'payload': p.hex(), 'all_faults': allf and (v % 16 == L % 16),
                     'picks': [[(v * 31 + k * 17) % 997, (L * 7 + k * 11)] for k in range(8 if ctx.quick else 24)]}
             ctx.run(case)
+    # ... and EVERY payload length 41..300 under a few versions (a length singled out by some other format - 74/77/78 bytes of
+    # an extended key, 64/65 of a signature ... - is still just a payload here)
+    for L in ctx.my(range(41, 301)):
+        for v in (0, 5, 128, 255, (L * 37) % 256):
+            p = bytes((v * 7 + i * 13 + L) % 256 for i in range(L))
+            ctx.run({'kind': 'versioned', 'version': v, 'payload': p.hex(), 'all_faults': False,
+                     'picks': [[(v * 31 + k * 17) % 997, (L * 7 + k * 11)] for k in range(3)]})
     if ctx.shard == 0:
-        ctx.exhaustive.append('versions 0..255 x payload lengths 0..40 (text form, round trip, sampled faults, fragments)')
+        ctx.exhaustive.append('versions 0..255 x payload lengths 0..40 (text form, round trip, sampled faults, fragments); 5 versions x every payload length 41..300')
 
 
 @st.composite
